@@ -15,6 +15,7 @@ from __future__ import annotations
 
 import json
 import os
+import sys
 import threading
 from typing import Any
 
@@ -50,6 +51,7 @@ class World:
         self.emit = emit or {}                # label -> emit pattern (C19)
         self.on_run = on_run                  # optional callback(task) inside run()
         self.child = None                     # index of the virtual child executing (E3)
+        self.record_env = bool(os.environ.get('VERIF_RECORD_ENV'))
 
     def rec(self, *ev):
         self.log.append(ev)
@@ -99,6 +101,8 @@ def ctx_view(task):
     ctx = task.context
     if ctx is None:
         return None
+    if ctx.get('_noview'):
+        return ()
     return tuple(sorted((k, v) for k, v in ctx.items() if not k.startswith('_')))
 
 
@@ -129,9 +133,24 @@ def _emit(task):
             sys.stderr.flush()
 
 
+PARENT_MARK = 'import-time'     # a module global the caller mutates after import (C16 process model)
+
+
+def _record_env(self, k):
+    import multiprocessing
+    ctx = self.context
+    WORLD.rec('env', k, os.getpid(), os.getppid(), threading.get_ident(),
+              multiprocessing.get_start_method(allow_none=True), PARENT_MARK,
+              None if ctx is None else sorted((str(a), repr(b)) for a, b in ctx.items()),
+              sys.modules['__main__'].__name__ if hasattr(sys.modules.get('__main__'), '__name__') else None,
+              getattr(sys.modules.get('__main__'), '__spec__', None) is not None and sys.modules['__main__'].__spec__.name or None)
+
+
 def _run(self):
     k = tkey(self)
     WORLD.rec('start', k)
+    if WORLD.record_env:
+        _record_env(self, k)
     _emit(self)
     if WORLD.on_run is not None:
         WORLD.on_run(self)
